@@ -767,7 +767,8 @@ def r5_helpers(rule, root=None):
     txt = A.ftxt(fn["body"])
     import re as _re
 
-    if "self.spare_memory.pop()" in txt and _re.search(r"letout=self\.out\.slot_count;\(self\.out\.slot_count\+=[1-9]\d*\);", txt):
+    mg = _re.search(r"let(\w+)=self\.out\.slot_count;\(self\.out\.slot_count\+=[1-9]\d*\);(?:assert!\([^;]*\);)*\1\}", str(txt))
+    if "self.spare_memory.pop()" in txt and (mg or _re.search(r"letout=self\.out\.slot_count;\(self\.out\.slot_count\+=[1-9]\d*\);", txt)):
         rule.ok("get_memory: pop or slot_count++")
     else:
         rule.bad("get_memory", "get_memory must pop spare_memory or return slot_count and then increment it by one", A.where(fn))
@@ -822,4 +823,9 @@ def _subst(t):
         return t
     if t == ("var", "reg"):
         return ("m", "oldest_reg", ("var", "self"))
+    try:
+        if T.show(t) == "field(self, register_lru).pop()":
+            return ("m", "oldest_reg", ("var", "self"))  # the victim is the LRU's pop, with or without a helper around it
+    except Exception:  # noqa: BLE001
+        pass
     return tuple(_subst(x) for x in t)
